@@ -40,34 +40,8 @@ def value_node(v, dom):
     return v
 
 
-def staged_gaussian_substitution(case):
-    """Open known-finding class: a substitution applied under `normalize` to a term holding a Gaussian, in which one key's
-    value is a lazy (non-ground) expression and another key's value mentions that key (so the two cannot be applied in
-    stages)."""
-    if case.get("smode") != "normalize":
-        return False
-    if not any(n[0] == "gauss" for n in walk(case["f"])):
-        return False
-    for m in (case.get("subs") or (), case.get("subs2") or ()):
-        m = [(k, v) for k, v in m]
-        lazy_keys = {k for k, v in m if v[0] not in ("pynum", "pyname", "num", "ten", "slice", "var")}
-        for k, v in m:
-            if v[0] in ("pynum", "pyname"):
-                continue
-            try:
-                names = set(typeof(v)[0])
-            except Exception:  # noqa: BLE001
-                continue
-            if (lazy_keys - {k}) & names:
-                return True
-    return False
-
-
 class C04(Prop):
     id = "C04"
-    known_predicates = {
-        "gaussian-staged-substitution-under-normalize": lambda case, v: v.bucket.startswith("subs:") and staged_gaussian_substitution(case),
-    }
     rule = (
         "case = (f, subs[, subs2]): f from the generated term language built under eager/lazy/reflect/normalize; substitution "
         "maps with numbers, index tensors over arbitrary (incl. f's own and key) names, variables (fresh, colliding, swapped, "
